@@ -11,6 +11,12 @@ CLI:
     python3 /verif/lib/kani_runner.py --all [--tier quick|thorough] [-j N] [--crate C] [--json]
     python3 /verif/lib/kani_runner.py --playback <crate> <harness>
 
+harnesses.json entries: property, crate, harness, tier (quick|thorough), expect (pass|known_fail),
+finding, expect_failure_contains (known_fail only: substring every failed check must contain),
+timeout_s, mem_gb, functions, bounds, stubs, asserts, measured_*.
+--all exit code: 0 all as expected, 1 something unexpected (a pass that should fail, a fail that
+should pass, a known failure failing differently), 2 at least one inconclusive.
+
 Verdict rules (never optimistic):
     pass          `VERIFICATION:- SUCCESSFUL` AND >= 1 cover property AND all cover properties
                   SATISFIED AND no failed check AND no unwinding-assertion failure.
@@ -75,6 +81,21 @@ def _session_rss_kb(sid):
     return total, biggest
 
 
+_ACTIVE_SESSIONS = set()
+_ACTIVE_LOCK = threading.Lock()
+
+
+def kill_active_sessions():
+    """Kill every cargo-kani/cbmc process tree started by this module (used on SIGTERM/SIGINT)."""
+    with _ACTIVE_LOCK:
+        sids = list(_ACTIVE_SESSIONS)
+    for sid in sids:
+        try:
+            os.killpg(sid, signal.SIGKILL)
+        except (ProcessLookupError, PermissionError):
+            pass
+
+
 def _run(cmd, cwd, env, log_path, timeout_s, mem_gb):
     """Run `cmd` in its own session with RLIMIT_AS = mem_gb, output to log_path.
 
@@ -97,6 +118,8 @@ def _run(cmd, cwd, env, log_path, timeout_s, mem_gb):
         proc = subprocess.Popen(cmd, cwd=cwd, env=env, stdout=log, stderr=subprocess.STDOUT,
                                 stdin=subprocess.DEVNULL, preexec_fn=pre)
         sid = proc.pid
+        with _ACTIVE_LOCK:
+            _ACTIVE_SESSIONS.add(sid)
         peak = [0]
         stop = threading.Event()
 
@@ -127,6 +150,8 @@ def _run(cmd, cwd, env, log_path, timeout_s, mem_gb):
         except subprocess.TimeoutExpired:
             pass
         th.join(timeout=2)
+        with _ACTIVE_LOCK:
+            _ACTIVE_SESSIONS.discard(sid)
     return code, timed_out, time.time() - t0, peak[0] / 1024.0
 
 
@@ -174,16 +199,20 @@ _RE_TIME = re.compile(r"^Verification Time: ([0-9.]+)s")
 _RE_VERDICT = re.compile(r"^VERIFICATION:- (SUCCESSFUL|FAILED)")
 _RE_FAILED_FILE = re.compile(r'^ File: "(.*)", line (\d+), in (.*)$')
 
-_INFRA_PATTERNS = [
-    (re.compile(r"^error: Failed to match the following harness", re.M), "harness not found"),
+_RE_OOM = re.compile(r"CBMC appears to have run out of memory|std::bad_alloc|[Oo]ut of memory|memory exhausted|"
+                     r"memory allocation of \d+ bytes failed|Cannot allocate memory")
+_RE_CBMC_FAILED = re.compile(r"^CBMC failed|^CBMC timed out|CBMC crashed", re.M)
+# (pattern, reason) tried in order when the log contains no VERIFICATION verdict
+_NO_VERDICT_PATTERNS = [
     (re.compile(r"^error: internal compiler error|^thread 'rustc' panicked|Kani unexpectedly panicked", re.M),
      "kani-compiler crashed (ICE)"),
-    (re.compile(r"^error(\[E\d+\])?: ", re.M), "compile error"),
-    (re.compile(r"^error: could not compile", re.M), "compile error"),
-    (re.compile(r"CBMC appears to have run out of memory|std::bad_alloc|Out of memory|out of memory|SIGKILL|memory exhausted", re.M),
-     "out of memory"),
-    (re.compile(r"^CBMC failed with status|^CBMC timed out|CBMC crashed", re.M), "CBMC failed"),
+    (re.compile(r"^error: Failed to match the following harness", re.M), "harness not found"),
+    (_RE_OOM, "out of memory"),
+    (re.compile(r"^error(\[E\d+\])?: |^error: could not compile", re.M), "compile error"),
+    (_RE_CBMC_FAILED, "CBMC failed"),
 ]
+# with a FAILED verdict: CBMC itself did not finish
+_FAILED_VERDICT_PATTERNS = [(_RE_OOM, "out of memory"), (_RE_CBMC_FAILED, "CBMC failed")]
 
 
 def parse_log(text):
@@ -321,7 +350,7 @@ def classify(text, exit_code, timed_out):
         return res
     if len(p["verdicts"]) != 1:
         # no verdict (or several: should not happen with --harness): infrastructure problem
-        for rx, why in _INFRA_PATTERNS:
+        for rx, why in _NO_VERDICT_PATTERNS:
             if rx.search(text):
                 res["reason"] = why
                 break
@@ -332,7 +361,7 @@ def classify(text, exit_code, timed_out):
         return res
     verdict = p["verdicts"][0]
     if p["status_error"]:
-        res["reason"] = "a check has Status: ERROR"
+        res["reason"] = "a check has Status: ERROR (the solver gave up, usually the memory limit)"
         return res
     if unwind_failed:
         res["reason"] = "unwind bound too small"
@@ -360,7 +389,7 @@ def classify(text, exit_code, timed_out):
         res["reason"] = "all checks successful, all cover properties satisfied"
         return res
     # verdict == FAILED
-    for rx, why in _INFRA_PATTERNS[4:]:
+    for rx, why in _FAILED_VERDICT_PATTERNS:
         if rx.search(text):
             res["reason"] = why
             return res
@@ -489,6 +518,12 @@ def run_all(tier=None, jobs=4, crates=None, entries=None, progress=None):
                 r["expect"] = e.get("expect", "pass")
                 r["finding"] = e.get("finding")
                 r["as_expected"] = (r["status"] == expected_status(e))
+                # a known failure must be THE known failure: every failed check has to match
+                want = e.get("expect_failure_contains")
+                if r["as_expected"] and r["status"] == "fail" and want:
+                    if not r["failed_checks"] or not all(want in d for d in r["failed_checks"]):
+                        r["as_expected"] = False
+                        r["reason"] += "; failed for another reason than the known one (%r)" % want
                 with lock:
                     results.append(r)
                     if progress:
@@ -533,6 +568,12 @@ def main(argv=None):
     ap.add_argument("--json", action="store_true", help="with --all: print the result list as JSON")
     ap.add_argument("--playback", action="store_true")
     a = ap.parse_args(argv)
+
+    def on_signal(signum, _frame):
+        kill_active_sessions()
+        os._exit(128 + signum)
+    signal.signal(signal.SIGTERM, on_signal)
+    signal.signal(signal.SIGINT, on_signal)
 
     if a.all:
         def progress(r):
